@@ -187,3 +187,39 @@ Theorem c19_sequence_reads_from_file : forall cmp f t b ops,
   seq_reads_file cmp f (root_loc t) b ops = Some (srun_reads cmp t [] ops).
 Proof. exact LazySeqProofs.seq_reads_file_spec. Qed.
 Print Assumptions c19_sequence_reads_from_file.
+
+(* ... with whole visits, Len and GetTotals in the sequence (LazySeq2.v): a visit drops the items it touched when it leaves
+   their nodes, so the next call reads them once more *)
+From GK Require Import LazySeq2 LazySeq2Proofs.
+
+Theorem c19_sequence_with_visits_key_only : forall cmp t0 ops m,
+  forallb key_only_op2 ops = true ->
+  Forall (Forall (fun r => in_node t0 r \/ in_keypart t0 r)) (srun_reads2 cmp t0 m ops).
+Proof. exact LazySeq2Proofs.seq2_key_only. Qed.
+Print Assumptions c19_sequence_with_visits_key_only.
+
+Theorem c19_sequence_with_visits_never_reads_values : forall cmp f t0 ops m,
+  rep f t0 -> records_disjoint t0 -> forallb key_only_op2 ops = true ->
+  Forall (Forall (fun r => forall q it, In (q, it) (item_locs t0) -> rd_disjoint r (value_range q it))) (srun_reads2 cmp t0 m ops).
+Proof. exact LazySeq2Proofs.seq2_never_reads_values. Qed.
+Print Assumptions c19_sequence_with_visits_never_reads_values.
+
+Theorem c19_visit_evicts_items : forall cmp t m asc target wv b rs t' m',
+  sstep2 cmp t m (SVis asc target wv b) = (rs, t', m') ->
+  t' = t /\
+  (forall o, In o (item_offs (fst (fst (visit_vt cmp asc t target wv b)))) -> mem_find o m' = None) /\
+  (forall o fl, mem_find o m = Some fl -> ~ In o (item_offs (fst (fst (visit_vt cmp asc t target wv b)))) -> mem_find o m' = Some fl).
+Proof. exact LazySeq2Proofs.visit_evicts_items. Qed.
+Print Assumptions c19_visit_evicts_items.
+
+Theorem c19_first_visit_is_single_visit_model : forall cmp f asc t target wv b,
+  rep f t -> persisted t -> records_disjoint t ->
+  hd [] (srun_reads2 cmp t [] [SVis asc target wv b]) = fst (fst (visit_treads cmp asc t target wv b)).
+Proof. exact LazySeq2Proofs.first_visit_is_lazyvisit_rep. Qed.
+Print Assumptions c19_first_visit_is_single_visit_model.
+
+Theorem c19_sequence_with_visits_from_file : forall cmp f t b ops,
+  rep f t -> persisted t -> below t b -> (Treap.size t <= S (List.length f))%nat ->
+  seq2_reads_file cmp f (root_loc t) b ops = Some (srun_reads2 cmp t [] ops).
+Proof. exact LazySeq2Proofs.seq2_reads_file_spec. Qed.
+Print Assumptions c19_sequence_with_visits_from_file.
